@@ -431,6 +431,11 @@ class ModuleVistor(NodeVisitor):
                         # re-exported by (a star import does not process the submodules it
                         # takes, unlike 'from package import submodule').
                         self.system.getProcessedModule(ob.fullName())
+                        # The same goes for the modules below a package.
+                        for sub in [m for m in self.system.unprocessed_modules
+                                    if f'{m.fullName()}.'.startswith(f'{ob.fullName()}.')]:
+                            if sub.state is model.ProcessingState.UNPROCESSED:
+                                self.system.processModule(sub)
                     self.system.msg(
                         "astbuilder",
                         "moving %r into %r" % (ob.fullName(), current.fullName())
